@@ -61,6 +61,15 @@ type lists2 struct {
 	Ib []inlb  `tlv8:"-"`
 	T  uint16  `tlv8:"9"`
 }
+type inl2 struct {
+	V uint8  `tlv8:"7"`
+	U uint16 `tlv8:"8"`
+	N string `tlv8:"10"`
+}
+type lists3 struct {
+	In2 []inl2 `tlv8:"-"`
+	T   uint8  `tlv8:"1"`
+}
 type onlyFloat struct {
 	H float32 `tlv8:"2"`
 }
@@ -363,7 +372,7 @@ func normalise(v reflect.Value) {
 
 var tlvShapes = map[string]func() interface{}{
 	"leafAll": func() interface{} { return &leafAll{} }, "small": func() interface{} { return &small{} }, "nested": func() interface{} { return &nested{} },
-	"withLists": func() interface{} { return &withLists{} }, "lists2": func() interface{} { return &lists2{} }, "onlyFloat": func() interface{} { return &onlyFloat{} }, "onlyI64": func() interface{} { return &onlyI64{} },
+	"withLists": func() interface{} { return &withLists{} }, "lists2": func() interface{} { return &lists2{} }, "lists3": func() interface{} { return &lists3{} }, "onlyFloat": func() interface{} { return &onlyFloat{} }, "onlyI64": func() interface{} { return &onlyI64{} },
 	"rtp.SetupEndpoints": func() interface{} { return &rtp.SetupEndpoints{} }, "rtp.SetupEndpointsResponse": func() interface{} { return &rtp.SetupEndpointsResponse{} },
 	"rtp.StreamConfiguration": func() interface{} { return &rtp.StreamConfiguration{} }, "rtp.VideoStreamConfiguration": func() interface{} { return &rtp.VideoStreamConfiguration{} },
 	"rtp.AudioStreamConfiguration": func() interface{} { return &rtp.AudioStreamConfiguration{} }, "rtp.StreamingStatus": func() interface{} { return &rtp.StreamingStatus{} },
